@@ -31,6 +31,31 @@ def _lp_fields(t, skip=None):
             yield nd
 
 
+def _element_reads(t):
+    """member nodes of lpinfo whose block is looked into: lp->F[i], *lp->F, lp->F->x, lp->F.x[i] (a read of the pointer alone - a NULL test, a
+    release - is valid in every state)"""
+    out = []
+    for nd in walk(t):
+        if not isinstance(nd, list) or not nd:
+            continue
+        inner = None
+        if nd[0] == "i":
+            inner = nd[1]
+        elif nd[0] == "u" and nd[1] == "*":
+            inner = nd[2]
+        elif nd[0] == "m" and len(nd) > 3 and nd[3] == 1:
+            inner = nd[1]
+        if inner is None:
+            continue
+        x = strip(inner)
+        while isinstance(x, list) and x and x[0] == "m":
+            if x[2].startswith(REC):
+                out.append(x)
+                break
+            x = strip(x[1])
+    return out
+
+
 def _leaves_at_once(f, succ, bid):
     """the block chain starting at bid reaches the function exit within a few blocks without branching (error message + return)"""
     for _ in range(6):
@@ -84,6 +109,25 @@ def run(prog, rule="R-LPSTATE", floor=6):
     READS = collections.defaultdict(dict)       # fkey -> {field: (loc, text)}
     WRITES = collections.defaultdict(set)
     GUARD = {}
+    # transitive writes first: a function that rebuilds the basis header may still read the old state before it does so (strong branching
+    # reads vstat through ILLlib_getbasis before it re-optimises), so reads are collected per site and only those not dominated by a
+    # rebuilding call count
+    for f in funcs:
+        for b, i, e in f.elements():
+            if e[0] == "A" and e[1][1] == "=":
+                l = strip(e[1][2])
+                if isinstance(l, list) and l and l[0] == "m" and l[2].startswith(REC):
+                    WRITES[f.key].add(l[2][len(REC):])
+    ch = True
+    while ch:
+        ch = False
+        for f in funcs:
+            for b, i, c in f.calls():
+                g = prog.resolve(f, c[1]) if c[1] else None
+                if g is not None and g.blocks and WRITES[g.key] - WRITES[f.key]:
+                    WRITES[f.key] |= WRITES[g.key]
+                    ch = True
+    REBUILT = {}
     for f in funcs:
         dom, succ = dominators(prog, f)
         preds = collections.defaultdict(set)
@@ -111,24 +155,50 @@ def run(prog, rule="R-LPSTATE", floor=6):
                 if others and all(_leaves_at_once(f, succ, o) for o in others):
                     continue
                 guarded.add(s)
+        rebuilders = [(b2["id"], i2) for b2, i2, c2 in f.calls()
+                      if (lambda g2: g2 is not None and g2.blocks and "baz" in WRITES[g2.key])(prog.resolve(f, c2[1]) if c2[1] else None)]
+        def rebuilt(bid, idx, dom=dom, rebuilders=rebuilders):
+            return any((rb in dom.get(bid, ()) and rb != bid) or (rb == bid and ri < idx) for (rb, ri) in rebuilders)
+        REBUILT[f.key] = rebuilt
         def is_guarded(bid):
             return any(g == bid or g in dom.get(bid, ()) for g in guarded)
+        # blocks that run only where a state pointer was found non-NULL (`if (lp->f) { ... lp->f->x ... }`: releasing code, valid in every state)
+        nn = collections.defaultdict(set)
+        for bid in f.live:
+            c = f.blocks[bid].get("c")
+            if c is None:
+                continue
+            ss2 = prog.live_succs(f, f.blocks[bid])
+            if len(ss2) != 2:
+                continue
+            for idx, s_ in enumerate(ss2):
+                if s_ is None or preds[s_] != {bid}:
+                    continue
+                for l, op, r in atoms(c, idx == 0):
+                    for a_, b_, o in ((l, r, op), (r, l, op)):
+                        a0 = strip(a_)
+                        if isinstance(a0, list) and a0 and a0[0] == "m" and a0[2].startswith(REC) and const_of(b_) == 0 and o == "!=":
+                            nn[a0[2][len(REC):]].add(s_)
+        def nonnull(fl, bid, dom=dom, nn=nn):
+            return any(g == bid or g in dom.get(bid, ()) for g in nn.get(fl, ()))
         for b, i, e in f.elements():
             trees = [x[1] for x in e[1] if x[1] is not None] if e[0] == "D" else ([e[1]] if e[1] is not None else [])
             lhs = strip(e[1][2]) if e[0] == "A" and e[1][1] == "=" else None
             for t in trees:
+                deref = {id(x) for x in _element_reads(t)}
                 for nd in _lp_fields(t):
                     fl = nd[2][len(REC):]
                     if nd is lhs:
                         WRITES[f.key].add(fl)
-                    elif fl in state and not is_guarded(b["id"]):
+                    elif fl in state and id(nd) in deref and not is_guarded(b["id"]) and not rebuilt(b["id"], i) and not nonnull(fl, b["id"]):
                         READS[f.key].setdefault(fl, (e[2] if len(e) > 2 else "", "%s in %s" % (show(nd), f.name)))
         for bid in f.live:
             c = f.blocks[bid].get("c")
-            if c is not None and not is_guarded(bid):
+            if c is not None and not is_guarded(bid) and not rebuilt(bid, 1 << 30):
+                deref = {id(x) for x in _element_reads(c)}
                 for nd in _lp_fields(c):
                     fl = nd[2][len(REC):]
-                    if fl in state:
+                    if fl in state and id(nd) in deref and not nonnull(fl, bid):
                         READS[f.key].setdefault(fl, (f.blocks[bid].get("tloc", ""), "%s in a condition of %s" % (show(nd), f.name)))
         GUARD[f.key] = is_guarded
     changed, rounds = True, 0
@@ -144,7 +214,7 @@ def run(prog, rule="R-LPSTATE", floor=6):
                 if add:
                     WRITES[f.key] |= add
                     changed = True
-                if not GUARD[f.key](b["id"]):
+                if not GUARD[f.key](b["id"]) and not REBUILT[f.key](b["id"], i):
                     for fl, v in READS[g.key].items():
                         if fl not in READS[f.key]:
                             READS[f.key][fl] = v
@@ -181,7 +251,7 @@ def run(prog, rule="R-LPSTATE", floor=6):
                 builders.add(b["id"])
         for b, i, c in f.calls():
             g = prog.resolve(f, c[1]) if c[1] else None
-            if g is None or not g.blocks or "baz" in WRITES[g.key]:
+            if g is None or not g.blocks:
                 continue
             if not any(show(a) in ("p->lp",) for a in c[3]):
                 continue
